@@ -285,7 +285,7 @@ def zero_run(corpus, rng):
     if rng.random() < 0.5 and pos > 13:
         # make sure the run starts inside a field: clear the low bits of the byte before it
         u[pos - 1] &= 0xFF << rng.randrange(1, 8) & 0xFF
-    n = rng.choice([40, 600, 1800, 3600, 3600, 5000, 9000])
+    n = rng.choice([40, 600, 1800, 3600, 3600, 5000, 9000, 9000, 30000, 70000])
     u[pos:pos] = bytes(n)
     return {"data": vc2util.join_units(units), "op": "x:zero-run-%d" % n, "seed": label}
 
